@@ -337,7 +337,7 @@ fn transform_modifiers(modifiers: BTreeSet<Atom>, quote_prop: bool) -> Option<Ex
                 .into_iter()
                 .map(|modifier| {
                     PropOrSpread::Prop(Box::new(Prop::KeyValue(KeyValueProp {
-                        key: if quote_prop {
+                        key: if quote_prop || !is_identifier_name(&modifier) {
                             PropName::Str(quote_str!(modifier))
                         } else {
                             PropName::Ident(quote_ident!(modifier))
@@ -351,6 +351,11 @@ fn transform_modifiers(modifiers: BTreeSet<Atom>, quote_prop: bool) -> Option<Ex
                 .collect(),
         }))
     }
+}
+
+fn is_identifier_name(name: &str) -> bool {
+    let mut chars = name.chars();
+    chars.next().map(Ident::is_valid_start).unwrap_or_default() && chars.all(Ident::is_valid_continue)
 }
 
 fn parse_v_slots_directive(jsx_attr: &JSXAttr) -> Directive {
